@@ -77,7 +77,7 @@ def guard_of(tid, t, names):
 def cond_code(ck, owner, idx):
     if ck == 1:
         return 'c(1, %d, %d, time)' % (owner, idx)
-    return 'c(%d, %d, %d, time, __old__, len(box[0]))' % (ck, owner, idx)
+    return 'c(%d, %d, %d, time, __old__, len(box[0]), after(1), idle(1))' % (ck, owner, idx)
 
 
 def contract_lists(owner, npre, npost, ninv):
